@@ -39,6 +39,8 @@ InitState(limit, hasKill) ==
      cl |-> [c \in Clients |-> ClientInit],
      c2s |-> [c \in Clients |-> <<>>],      \* bytes sent by the client, not yet received by the server
      s2c |-> [c \in Clients |-> <<>>],      \* bytes written by the server, not yet received by the client
+     c2sfd |-> [c \in Clients |-> <<>>],    \* messages in c2s that carry descriptors (SCM_RIGHTS): [s, e, fds],
+                                            \* byte offsets s < e into c2s[c] of the message, in order
      backlog |-> <<>>,                      \* connections waiting in the listener queue
      killed |-> FALSE, hasKill |-> hasKill,
      limit |-> limit,                       \* the server's payload limit (applies to later accepts)
@@ -74,7 +76,12 @@ ReadySet(S, writable(_)) ==
 (* Client actions (pure)                                                   *)
 (***************************************************************************)
 CConnect(S, c) == [S EXCEPT !.cl[c].st = "open", !.backlog = Append(@, c)]
-CSend(S, c, bytes) == [S EXCEPT !.c2s[c] = @ \o bytes]
+\* sendmsg of one message (one skb) with descriptors attached (none: a plain write)
+CSendFds(S, c, bytes, fds) ==
+    [S EXCEPT !.c2s[c] = @ \o bytes,
+              !.c2sfd[c] = IF fds = <<>> \/ bytes = <<>> THEN @
+                           ELSE Append(@, [s |-> Len(S.c2s[c]), e |-> Len(S.c2s[c]) + Len(bytes), fds |-> fds])]
+CSend(S, c, bytes) == CSendFds(S, c, bytes, <<>>)
 CRecv(S, c, n) == [S EXCEPT !.s2c[c] = Slice(@, n + 1, Len(@))]
 CShutWr(S, c) == [S EXCEPT !.cl[c].wr = TRUE]
 \* shutdown(RD): what is already queued stays readable; later writes of the peer fail (EPIPE)
@@ -105,26 +112,44 @@ Resp400(e) == SerializeResp(SetBody(NewResp("1.1", 400), L_D_400_PRE \o ErrText(
 (***************************************************************************)
 (* Server: one event of a batch                                            *)
 (***************************************************************************)
-Token(f, owner, tag) == [fd |-> f, owner |-> owner, tag |-> tag]
+Token(f, owner, tag, files) == [fd |-> f, owner |-> owner, tag |-> tag, files |-> files]
+
+\* What one recvmsg of at most w bytes takes from the socket of client c (unix stream sockets):
+\* messages are glued together until the receive has consumed (part of) a message that carries
+\* descriptors -- those descriptors come with the FIRST byte taken from that message and nothing
+\* after that message is returned by the same call.
+RecvLen(S, c, w) ==
+    LET avail == Len(S.c2s[c])
+        lim == IF avail < w THEN avail ELSE w
+        segs == S.c2sfd[c]
+        hit == segs # <<>> /\ Head(segs).s < lim
+    IN [n |-> IF hit /\ Head(segs).e < lim THEN Head(segs).e ELSE lim,
+        fds |-> IF hit THEN Head(segs).fds ELSE <<>>,
+        hit |-> hit]
+ShiftSegs(segs, hit, n) ==
+    LET rest == IF hit THEN Tail(segs) ELSE segs
+    IN [i \in 1..Len(rest) |-> [s |-> rest[i].s - n, e |-> rest[i].e - n, fds |-> rest[i].fds]]
 
 \* ClientConnection::read -- one try_read on min(available, window) bytes
 SrvRead(S, f) ==
     LET cn == S.srv[f]
         c == cn.peer
-        n == IF Len(S.c2s[c]) < BUF - Len(cn.http.buf) THEN Len(S.c2s[c]) ELSE BUF - Len(cn.http.buf)
+        rl == RecvLen(S, c, BUF - Len(cn.http.buf))
+        n == rl.n
     IN IF n = 0
        THEN \* recvmsg returns 0 (peer shut down) or EAGAIN: race-only branches
             IF Hangup(S, c) THEN [S EXCEPT !.srv[f].st = "Closed"] ELSE S
        ELSE
-       LET r == TryRead(cn.http, Slice(S.c2s[c], 1, n), <<>>)
+       LET r == TryRead(cn.http, Slice(S.c2s[c], 1, n), rl.fds)
            isErr == r.res.k = "ParseError"
            \* DiscardOnError: requests completed in the same read as a malformed one are dropped
            yielded == IF isErr THEN <<>> ELSE r.c.parsed
            h1 == PopAll(r.c)
            h2 == IF isErr THEN Enqueue(h1, Resp400(r.res.e)) ELSE h1
            out == PendingWrite(h2)
-           toks == [i \in 1..Len(yielded) |-> Token(f, c, yielded[i].uri)]
+           toks == [i \in 1..Len(yielded) |-> Token(f, c, yielded[i].uri, yielded[i].files)]
        IN [S EXCEPT !.c2s[c] = Slice(@, n + 1, Len(@)),
+                    !.c2sfd[c] = ShiftSegs(@, rl.hit, n),
                     !.srv[f].http = h2,
                     !.srv[f].infl = @ + Len(yielded),
                     !.srv[f].st = IF out THEN "AwaitingOutgoing" ELSE @,
@@ -227,6 +252,27 @@ TokenOK(S) ==
 InflOK(S) ==
     \A f \in Open(S) :
         S.srv[f].infl = Cardinality({t \in S.outst : t.fd = f}) + Cardinality({i \in 1..Len(S.acc) : S.acc[i].fd = f})
+
+\* C12 at the level of the server: descriptors are conserved and stay with their owner.  Descriptor
+\* tags are FdBase * client + k; every descriptor in the system is in exactly one place and that place
+\* belongs to the client that sent it.
+FdBase == 100
+SeqSet(q) == {q[i] : i \in 1..Len(q)}
+FilesOwnedOK(S) ==
+    /\ \A f \in Open(S) : \A x \in SeqSet(S.srv[f].http.files) : x \div FdBase = S.srv[f].peer
+    /\ \A t \in S.outst \cup SeqSet(S.acc) : \A x \in SeqSet(t.files) : x \div FdBase = t.owner
+    /\ \A c \in Clients : \A i \in 1..Len(S.c2sfd[c]) : \A x \in SeqSet(S.c2sfd[c][i].fds) : x \div FdBase = c
+\* no descriptor is in two places (or twice in one): the distinct tags are as many as the positions
+Toks(S) == S.outst \cup SeqSet(S.acc)
+HeldByServer(S) ==
+    Cardinality(UNION {{<<f, i>> : i \in 1..Len(S.srv[f].http.files)} : f \in Open(S)})
+    + Cardinality(UNION {{<<t, i>> : i \in 1..Len(t.files)} : t \in Toks(S)})
+InFlightFds(S) == UNION {{<<c, i, j>> : j \in 1..Len(S.c2sfd[c][i].fds)} : <<c, i>> \in UNION {{<<d, k>> : k \in 1..Len(S.c2sfd[d])} : d \in Clients}}
+FilesOnceOK(S) ==
+    LET tags == UNION {SeqSet(S.srv[f].http.files) : f \in Open(S)}
+                \cup UNION {SeqSet(t.files) : t \in Toks(S)}
+                \cup UNION {SeqSet(S.c2sfd[p[1]][p[2]].fds) : p \in UNION {{<<d, k>> : k \in 1..Len(S.c2sfd[d])} : d \in Clients}}
+    IN Cardinality(tags) = HeldByServer(S) + Cardinality(InFlightFds(S))
 
 \* C08: registered interest mirrors the state; output is never parked under IN interest
 InterestOK(S) ==
